@@ -98,6 +98,7 @@ type Session struct {
 	solver  *Solver
 	started time.Time
 	loadMs  int64
+	tables  *tableDump
 }
 
 func contractsFile() string { return filepath.Join(repoDir, "src", "contracts_verif.go") }
